@@ -45,6 +45,13 @@ CLAIMED = {
          "rejected modification / creation / end markers disabled, and that each marker arrives after the held farLookup add was acknowledged.",
          "BESS datapath only so far (UP4 PacketOut pending); ordering is observed by delaying the FAR programming by 25 ms. " + TRUST,
          "5 C14"),
+ "C06": ("TLA+ IPPool (set-based R-level allocator; FIFO I-model refining it, complete graphs) + TraceC06: TLC validates every recorded call of the real IPPool, with linearisation search for concurrent histories",
+         "Library level against the real pfcpiface.IPPool: (seq) every sequence of L calls over {alloc, free} x 3 sessions on a /30 pool - bounded-exhaustive at the implementation (L=5 quick, 7 thorough); "
+         "(prefix) every prefix /30../16 driven to exhaustion and back and walked through its whole inventory; (conc) concurrent goroutines whose invocation/response order is stamped outside the pool, "
+         "accepted iff TLC finds a linearisation of the set-based allocator that reproduces every result (sound for any locking scheme). Invariants: ResultLegalForSetAllocator (in range, sticky, refusal only "
+         "when full, release frees exactly one), Exclusive, InRangeNotNetNotBroadcast. The FIFO model as coded is model-checked to refine the set allocator on complete state graphs (2 and 4 addresses).",
+         "Concurrent schedules are those the Go scheduler produced in the run (sampled); the end-to-end part (UE IP Address IEs in Created PDR) is judged by C06_AddressInPoolAndExclusive in the traces of C05/C07. " + TRUST,
+         "5 C06"),
 }
 
 def hooks_commits():
